@@ -109,6 +109,15 @@ func c05Witnesses() []Case {
 	add("wit-composite", 0, c05T(c05S("k1", "k2", "v"), c05S("k2", "k1"), c05S("a", "b", "1"), c05S("a", "c", "2"), c05S("b", "a", "3")),
 		[]*c05Table{c05T(c05S("k1", "k2", "v"), c05S("k2", "k1"), c05S("a", "b", "9"), c05S("a", "c", "2"), c05S("b", "a", "3")),
 			c05T(c05S("k1", "k2", "v"), c05S("k2", "k1"), c05S("a", "b", "1"), c05S("a", "c", "2"), c05S("c", "a", "4"))}, 0, 1, 0)
+	// command level: a row removed by one branch, the other branch only changes the column set
+	// (the record is unresolved with NO unresolved column): the command must not conclude the merge
+	cmb := c05T(c05S("id", "a", "b", "c"), id, c05S("1", "q", "w", "e"), c05S("2", "a", "s", "d"), c05S("3", "z", "x", "c"))
+	cmDrop := c05T(c05S("id", "a", "b"), id, c05S("1", "q", "w"), c05S("2", "a", "s"), c05S("3", "z", "x"))
+	cmAdd := c05T(c05S("id", "a", "b", "c", "n"), id, c05S("1", "q", "w", "e", "n1"), c05S("2", "a", "s", "d", "n2"), c05S("3", "z", "x", "c", "n3"))
+	cmDel := c05T(c05S("id", "a", "b", "c"), id, c05S("1", "q", "w", "e"), c05S("3", "z", "x", "c"))
+	add("wit-cmd", 1, cmb, []*c05Table{cmDrop, cmDel}, 0, 0, 0)
+	add("wit-cmd", 1, cmb, []*c05Table{cmDel, cmAdd}, 0, 0, 0)
+	add("wit-cmd", 0, cmb, []*c05Table{cmDrop, cmDel}, 0, 1, 0)
 	// CompareColumns on its own
 	add("wit-coldiff", 2, c05T(c05S("a", "b", "c"), a), []*c05Table{c05T(c05S("a", "d", "b", "e"), a), c05T(c05S("f", "a", "c"), a)}, 0, 0, 0)
 	add("wit-coldiff", 2, c05T(c05S("a", "b", "c"), a), nil, 0, 0, 0)
@@ -490,6 +499,112 @@ func c05RandCase(ctx *Ctx, sh c05Shape, mode int) Case {
 	return Case{Tag: tag, Nontrivial: nontrivial, C: c05Case(mode, base, others, ctx.Pick(3), remmode, ctx.Pick(3)/2)}
 }
 
+// c05RemovalVsLayout: one branch removes rows (and may edit others), the other branch only changes
+// the column set (drop / add / reorder / rename a non-key column) without touching a cell.
+func c05RemovalVsLayout(ctx *Ctx, mode int) Case {
+	nval := 2 + ctx.Pick(3)
+	cols := append([]string{"k1"}, c05NamePool[:nval]...)
+	base := &c05Table{Cols: cols, PK: c05S("k1")}
+	nrows := 2 + ctx.Pick(5)
+	for i := 0; i < nrows; i++ {
+		row := []string{fmt.Sprintf("%04d", i*3)}
+		for j := 0; j < nval; j++ {
+			row = append(row, c05RandCell(ctx))
+		}
+		base.Rows = append(base.Rows, row)
+	}
+	A := c05Clone(base)
+	op := 0
+	if r := ctx.Pick(6); r < 2 {
+		op = 0
+	} else if r < 4 {
+		op = 1
+	} else {
+		op = r - 2
+	}
+	switch op {
+	case 0: // drop a non-key column
+		j := 1 + ctx.Pick(nval)
+		A.Cols = append(A.Cols[:j:j], A.Cols[j+1:]...)
+		for i, r := range A.Rows {
+			A.Rows[i] = append(r[:j:j], r[j+1:]...)
+		}
+		ctx.Count("removal_vs_col_drop")
+	case 1: // add a column
+		j := 1 + ctx.Pick(nval+1)
+		A.Cols = append(A.Cols[:j:j], append([]string{"n"}, A.Cols[j:]...)...)
+		for i, r := range A.Rows {
+			A.Rows[i] = append(r[:j:j], append([]string{fmt.Sprintf("n%d", i)}, r[j:]...)...)
+		}
+		ctx.Count("removal_vs_col_add")
+	case 2: // swap two non-key columns
+		i, j := 1, 2+ctx.Pick(nval-1)
+		A.Cols[i], A.Cols[j] = A.Cols[j], A.Cols[i]
+		for _, r := range A.Rows {
+			r[i], r[j] = r[j], r[i]
+		}
+		ctx.Count("removal_vs_col_reorder")
+	default: // rename
+		A.Cols[1+ctx.Pick(nval)] = "z9"
+		ctx.Count("removal_vs_col_rename")
+	}
+	B := c05Clone(base)
+	del := ctx.Pick(len(B.Rows))
+	B.Rows = append(B.Rows[:del:del], B.Rows[del+1:]...)
+	if len(B.Rows) > 0 && ctx.Pick(3) == 0 {
+		B.Rows[ctx.Pick(len(B.Rows))][1+ctx.Pick(nval)] = "edited"
+	}
+	others := []*c05Table{A, B}
+	if ctx.Pick(2) == 0 {
+		others = []*c05Table{B, A}
+	}
+	tag := "removal-vs-layout"
+	if mode == 1 {
+		tag += "-cli"
+	}
+	return Case{Tag: tag, Nontrivial: true, C: c05Case(mode, base, others, ctx.Pick(3), 1, 0)}
+}
+
+// c05BlockShift: multi-block tables in the common layout; one branch deletes exactly j*255 leading
+// rows or inserts 255 rows in front (so whole blocks of the base reappear at another block
+// position), the other branch edits rows in the shifted blocks.
+func c05BlockShift(ctx *Ctx, variant int) Case {
+	nrows := 255*2 + 20 + ctx.Pick(60)
+	if variant%4 == 3 {
+		nrows += 255
+	}
+	base := &c05Table{Cols: c05S("k1", "a", "b"), PK: c05S("k1")}
+	for i := 0; i < nrows; i++ {
+		base.Rows = append(base.Rows, []string{fmt.Sprintf("%05d", i), fmt.Sprintf("n%d", i), c05RandCell(ctx)})
+	}
+	A := c05Clone(base)
+	if variant%2 == 0 {
+		j := 1
+		if nrows > 255*3 && ctx.Pick(2) == 0 {
+			j = 2
+		}
+		A.Rows = A.Rows[255*j:]
+		ctx.Count("blockshift_delete_leading_blocks")
+	} else {
+		var front [][]string
+		for i := 0; i < 255; i++ {
+			front = append(front, []string{fmt.Sprintf("!%04d", i), "new", c05RandCell(ctx)})
+		}
+		A.Rows = append(front, A.Rows...)
+		ctx.Count("blockshift_insert_leading_block")
+	}
+	B := c05Clone(base)
+	for n := 1 + ctx.Pick(3); n > 0; n-- {
+		B.Rows[255+ctx.Pick(nrows-255)][2] = "edited"
+	}
+	others := []*c05Table{A, B}
+	if variant%3 == 0 {
+		others = []*c05Table{B, A}
+	}
+	ctx.Count("multi_block_base")
+	return Case{Tag: "blockshift", Nontrivial: true, C: c05Case(0, base, others, 0, 1, variant%2)}
+}
+
 var c05RowCounts = []int{0, 1, 2, 3, 3, 5, 8, 13, 30}
 var c05BigRowCounts = []int{254, 255, 256, 300, 511, 600}
 
@@ -526,6 +641,21 @@ func genC05(ctx *Ctx) []Case {
 	for i := 0; i < 12*mult; i++ {
 		sh := c05Shape{guard: i%3 != 2, keyless: i%12 == 11, nBranch: 2, rows: pickRows(), touchPct: 30}
 		cases = append(cases, c05RandCase(ctx, sh, 1))
+	}
+	// row removal vs pure column-set change (library and command level)
+	for i := 0; i < 30*mult; i++ {
+		cases = append(cases, c05RemovalVsLayout(ctx, 0))
+	}
+	for i := 0; i < 6*mult; i++ {
+		cases = append(cases, c05RemovalVsLayout(ctx, 1))
+	}
+	// whole blocks shifted to another block position in one branch
+	nShift := 2
+	if ctx.Thorough() {
+		nShift = 16
+	}
+	for i := 0; i < nShift; i++ {
+		cases = append(cases, c05BlockShift(ctx, i))
 	}
 	// CompareColumns alone: random column lists, occasionally malformed
 	for i := 0; i < 200*mult; i++ {
